@@ -99,6 +99,21 @@ Proof. induction l as [|[] l IH]; simpl; auto. Qed.
 Lemma run_split : forall l, l = map IFunc (run_funcs l) ++ run_rest l.
 Proof. induction l as [|[] l IH]; simpl; auto. now rewrite <- IH. Qed.
 
+(* the for-in loop, one iteration at a time *)
+Lemma forin_loop_O : forall ev s st, forin_loop ev 0 s st = (RFuel, st).
+Proof. reflexivity. Qed.
+Lemma forin_loop_S : forall ev n s st, forin_loop ev (S n) s st =
+  match forin_step st s with
+  | LsDone => fresh st (CInt 0)
+  | LsFault r => (r, st)
+  | LsBind c st1 s' =>
+    match ev c st1 with
+    | (ROk _, st2) => forin_loop ev n s' st2
+    | r => r
+    end
+  end.
+Proof. reflexivity. Qed.
+
 Section Eqs.
 Variable genv : env.
 
@@ -251,6 +266,23 @@ Lemma eval_EFor : forall k e st init cond incr body, eval genv (S k) e st (EFor 
   | (ROk _, st1) => eval genv k e st1 (EWhile cond (EBlock [IExpr body; IExpr incr]))
   | r => r end.
 Proof. reflexivity. Qed.
+Lemma eval_EForInRange : forall k e st x a b body, eval genv (S k) e st (EForInRange x a b body) =
+  match eval genv k e st b with
+  | (ROk cb, st1) =>
+    match eval genv k e st1 a with
+    | (ROk ca, st2) =>
+      match get_int st2 ca, get_int st2 cb with
+      | Some za, Some zb =>
+        forin_loop (fun c s => eval genv k ((x, c) :: e) s body) k (range_src za zb) st2
+      | _, _ => (RStuck, st2) end
+    | r => r end
+  | r => r end.
+Proof. reflexivity. Qed.
+Lemma eval_EForInArr : forall k e st x arr body, eval genv (S k) e st (EForInArr x arr body) =
+  match eval genv k e st arr with
+  | (ROk ca, st1) => forin_loop (fun c s => eval genv k ((x, c) :: e) s body) k (LArr ca 0) st1
+  | r => r end.
+Proof. reflexivity. Qed.
 Lemma eval_ELambda : forall k e st fd, eval genv (S k) e st (ELambda fd) = fresh st (CFun fd e).
 Proof. reflexivity. Qed.
 Lemma eval_EArrLit : forall k e st es t, eval genv (S k) e st (EArrLit es t) =
@@ -344,6 +376,7 @@ Global Opaque eval eval_items handlers.
 (* the rewrite base used by the proofs *)
 Global Hint Rewrite eval_EInt eval_EBool eval_EVar eval_ENeg eval_ENot eval_EBNot eval_EAnd eval_EOr
   eval_ECond eval_EIf eval_EAssign eval_ECall eval_EBlock eval_EWhile eval_EDoWhile eval_EFor
+  eval_EForInRange eval_EForInArr
   eval_ELambda eval_EArrLit eval_EIndex eval_ERecNew eval_ERecNil eval_EField eval_EPrint
   eval_items_nil eval_items_ILet eval_items_IVar eval_items_IFunc eval_items_IExpr
   handlers_nil handlers_cons : evaleq.
